@@ -10,6 +10,22 @@ from . import c02_sqlsem as Q
 from .c02_classify import classify_e2e, classify_text, F
 
 
+def coq_eval_retry(ck, header, exprs, tries=3):
+    """coq_eval, retried: the coq/ tree and .cache/cases are shared with concurrently running checks (a .vo
+    rebuilt under our feet gives 'inconsistent assumptions', a cleaned scratch directory a missing file)"""
+    import time
+    last = None
+    for k in range(tries):
+        try:
+            return coq_eval(header, exprs)
+        except RuntimeError as ex:
+            last = ex
+            ck.coverage.setdefault("coq_eval_retries", []).append(str(ex)[-200:])
+            time.sleep(5 * (k + 1))
+            models_built(ck)
+    raise last
+
+
 def models_built(ck):
     """the executable models (Model/ has no proofs, so they build even when a theorem is broken); always run
     make: it is incremental, and a stale .vo would be rejected by coqc"""
@@ -53,7 +69,7 @@ def stream_parse(ck, model_ok):
     model = None
     if model_ok:
         try:
-            model = coq_eval(M.HEADER, ["option_map gser (prql_parse %s)" % G.tokens_coq(t) for t, _ in cases])
+            model = coq_eval_retry(ck, M.HEADER, ["option_map gser (prql_parse %s)" % G.tokens_coq(t) for t, _ in cases])
         except (RuntimeError, ValueError, TypeError) as ex:
             ck.coverage["parse_model_error"] = str(ex)[-400:]
             ck.violation("the parser model could not be evaluated: the parse correspondence did not run",
@@ -86,7 +102,7 @@ def stream_sql_and_e2e(ck, model_ok, tm=None):
     for key, t in G.all_triples():
         cases.append(("triple:%s/%s/%s" % key, t, allrows))
     seenf = set()
-    for t in G.fold_cases():
+    for t in G.fold_cases() + G.null_cases():
         s = G.prql(t)
         if s not in seenf:
             seenf.add(s)
@@ -105,7 +121,19 @@ def stream_sql_and_e2e(ck, model_ok, tm=None):
             continue
         seen.add(s)
         cases.append(("random", t, sample))
-    srcs = [G.prql(t) for _, t, _ in cases]
+    lets = {}            # case index -> defining expression of the derived column d
+    for e1, e2 in (G.let_cases() if ck.thorough else G.let_cases()[::2]):
+        lets[len(cases)] = e1
+        cases.append(("let", e2, sample))
+    srcs = [G.prql(t) if k not in lets else "d = %s; %s" % (G.prql(lets[k]), G.prql(t)) for k, (_, t, _) in enumerate(cases)]
+
+    def full_tree(k):
+        return cases[k][1] if k not in lets else G.subst_col(cases[k][1], 3, lets[k])
+
+    def expected(k, env):
+        if k in lets:
+            return G.eval_doc(cases[k][1], tuple(env) + (G.eval_doc(lets[k], env),))
+        return G.eval_doc(cases[k][1], env)
 
     # model: SQL text per dialect, the engine's reading of it, the excluded corner, eval_doc on three rows
     probe = [rows[i] for i in (ck.rng.randrange(len(rows)), ck.rng.randrange(len(rows)), 444)]
@@ -113,12 +141,12 @@ def stream_sql_and_e2e(ck, model_ok, tm=None):
     if model_ok:
         exprs = []
         envs = "[" + "; ".join("[%s]" % "; ".join(G.coq_val(v) for v in env) for env in probe) + "]"
-        for _, t, _ in cases:
-            exprs.append("probe %s envs" % G.coq(t))
+        for k, (_, t, _) in enumerate(cases):
+            exprs.append("probe %s envs" % G.coq(t) if k not in lets else "probe_let %s %s envs" % (G.coq(lets[k]), G.coq(t)))
         try:
             # interleave so that every coqc shard gets the same mix of small and large trees
             order = sorted(range(len(exprs)), key=lambda k: (k % 16, k))
-            raw0 = coq_eval(M.HEADER.replace("Model.EvalDoc", "Model.EvalDoc Model.SqlSem Model.SqlCompat Model.C02Probe")
+            raw0 = coq_eval_retry(ck, M.HEADER.replace("Model.EvalDoc", "Model.EvalDoc Model.SqlSem Model.SqlCompat Model.C02Probe")
                             + "Definition envs : list (list val) := %s.\n" % envs, [exprs[k] for k in order])
             raw = [None] * len(exprs)
             for pos, k in enumerate(order):
@@ -127,6 +155,9 @@ def stream_sql_and_e2e(ck, model_ok, tm=None):
             model = []
             for x in raw:
                 per, corner, shipped = x
+                if not per:          # a let whose definition is not inlinable in the model
+                    model.append(None)
+                    continue
                 model.append((per[0][0], per[1][0], corner, shipped, [per[0][1], per[1][1]], [per[0][2], per[1][2]]))
         except (RuntimeError, ValueError, TypeError) as ex:
             ck.coverage["sql_model_error"] = str(ex)[-600:]
@@ -137,7 +168,13 @@ def stream_sql_and_e2e(ck, model_ok, tm=None):
     setup = M.setup_sql(rows)
     for di, dialect in enumerate(M.DIALECTS):
         _t = time.time()
-        comp = M.compile_batch(srcs, dialect)
+        plain = [k for k in range(len(cases)) if k not in lets]
+        comp = [None] * len(cases)
+        for k, r in zip(plain, M.compile_batch([srcs[k] for k in plain], dialect)):
+            comp[k] = r
+        lk = sorted(lets)
+        for k, r in zip(lk, M.compile_programs(["from t | derive {d = %s} | select {v0 = %s}" % (G.prql(lets[k]), G.prql(cases[k][1])) for k in lk], dialect)):
+            comp[k] = r
         tm['compile_' + dialect] = round(time.time() - _t, 1)
         # --- text correspondence
         for k, (label, t, ridx) in enumerate(cases):
@@ -198,8 +235,12 @@ def stream_sql_and_e2e(ck, model_ok, tm=None):
             if corner:
                 ck.stat("e2e", "excluded-corner")
                 continue
-            case = {"stream": "e2e", "dialect": dialect, "src": "from t | select {v = %s}" % src, "expr": src, "sql": comp[k][0],
-                    "edges": ["%s/%s/%s" % e for e in G.edges(t)], "kinds": sorted(G.kinds_of(t)),
+            ft = full_tree(k)
+            case = {"stream": "e2e", "dialect": dialect,
+                    "src": ("from t | select {v = %s}" % src) if k not in lets else "from t | derive {d = %s} | select {v = %s}" % (G.prql(lets[k]), G.prql(t)),
+                    "expr": src, "sql": comp[k][0],
+                    "edges": ["%s/%s/%s" % e for e in G.edges(ft)], "kinds": sorted(G.kinds_of(ft)),
+                    "let_def": lets.get(k), "let_body": t if k in lets else None,
                     "model_sql": M.codes_text(mk[di]) if mk is not None else None,
                     "bad_triples": Q.triples_py(mk[5][di]) if mk is not None else None}
             r = results[k]
@@ -215,7 +256,7 @@ def stream_sql_and_e2e(ck, model_ok, tm=None):
             for i in ridx:
                 env = rows[i]
                 try:
-                    exp = G.eval_doc(t, env)
+                    exp = expected(k, env)
                 except G.Undef:
                     continue
                 except G.Inexact:
@@ -235,7 +276,7 @@ def stream_sql_and_e2e(ck, model_ok, tm=None):
                         first_bad = {"row": {"a": str(env[0]), "b": str(env[1]), "c": str(env[2])}, "expected": str(exp), "observed": str(obs)}
             ck.count("e2e", dialect + "|" + src, nontrivial=compared > 0)
             ck.stat("e2e", "%s:%s" % (dialect, "compared" if compared else "no-comparable-row"))
-            for e in G.edges(t):
+            for e in G.edges(ft):
                 ck.stat("e2e-edges", "%s/%s/%s" % e)
             if engine_bad is not None:
                 c2 = dict(case); c2.update(engine_bad); c2["stream"] = "engine-model"
@@ -255,7 +296,7 @@ def stream_sql_and_e2e(ck, model_ok, tm=None):
             for env, shipped in zip(probe, model[k][3]):
                 tag, num, den = shipped
                 try:
-                    pv = G.eval_doc(t, env)
+                    pv = expected(k, env)
                     py = (0, 0, 1) if pv is None else (1, Fraction(pv).numerator, Fraction(pv).denominator)
                 except G.Undef:
                     py = (3, 0, 1)
@@ -287,6 +328,14 @@ def stream_directed(ck):
         if " false " in sql.lower() or sql.lower().startswith("select false"):
             ck.disagreement("two spellings of one instant compared by text at compile time: %s" % sql,
                             {"stream": "directed", "src": src, "sql": sql, "kinds": ["timestamp-literal-eq"]}, lambda c: F["F17"])
+    # F3b: negation of an s-string that starts with a minus sign (s-strings are outside the generators)
+    f = [x for x in ck.findings if x["id"] == F["F3b"]]
+    src = 'from t | select {v = -(s"-a")}'
+    a = harness("compile", [{"src": src, "target": "sql.sqlite", "format": False, "sig": False}])[0]
+    ck.count("directed", src)
+    if "ok" in a and "--" in a["ok"]:
+        ck.disagreement("negation of an s-string starting with `-` emits an SQL comment: %s" % a["ok"],
+                        {"stream": "directed", "src": src, "sql": a["ok"]}, lambda c: F["F3b"])
     # findings that live in tables / non-executable dialects: confirm the recorded emission
     for key, target, want in (("N3", "sql.sqlite", "a REGEXP b < c"), ("N4", "sql.bigquery", "(a + b * 180 / PI())")):
         f = [x for x in ck.findings if x["id"] == F[key]]
